@@ -13,7 +13,12 @@ def run(ctx):
     corrs = tstream.make_corrs(ctx, ops=["apply_trade", "_on_before_trading", "_on_settlement"])
     vc = {"position": ctx.corr("PositionValidator", "every recorded decision of the real position validator vs model `positionVeto` on the same order and closable quantities"),
           "closable": ctx.corr("closable / today_closable", "the real position's closable and today_closable at every validation vs model `posClosable/posTodayClosable` from the position's fields and the open closing orders")}
-    tstream.stream(ctx, ctx.n(60, 3000), corrs, [monitors.c10_monitor], extra_sync=lambda c, tr, ix: sync_misc.validators_sync(c, vc, tr, ix))
+    def gen(rnd, k):
+        import bundle as B, trading
+        S = B.gen_market(rnd, ndays=rnd.randrange(10, 26))
+        S["_plan_generic_close"] = True       # only this check's stream runs the scenario of finding F12 (generic CLOSE + CLOSE_TODAY resting together)
+        return S, trading.gen_config(rnd, S, None)
+    tstream.stream(ctx, ctx.n(60, 3000), corrs, [monitors.c10_monitor], gen=gen, extra_sync=lambda c, tr, ix: sync_misc.validators_sync(c, vc, tr, ix))
 
 
 def replay(ctx, data):
